@@ -763,7 +763,9 @@ class Gen:
           ds = [(tid, r.random() < 0.5)] if r.random() < 0.8 else []
           if r.random() < 0.3:
             ds.append((r.randrange(1, mx + 1), r.random() < 0.5))
-          oracle = ('decide', ds, gen_md(r, 1), [])
+          # metadata for trials, sometimes for a trial that does not exist (cannot be stored)
+          tmd = [(r.randrange(1, mx + 2), kv) for kv in gen_md(r, 1)] if r.random() < 0.3 else []
+          oracle = ('decide', ds, gen_md(r, 1), tmd)
         out.append(('CheckEarlyStop', r.random() < 0.6, o, sid, tid, oracle))
       elif u < 0.72:
         tmd = [(r.randrange(1, mx + 1) if r.random() < 0.85 else mx + 3, kv) for kv in gen_md(r, 2)]
